@@ -203,7 +203,7 @@ def replay(ctx, payload):
     print('input', repr(s), 'multiline', ml, 'escaped', repr(esc), 'tokens', r)
     return len(ctx.witnesses) == n0
 
-LEVEL_TEXT = ("Theorems C02_inverse / C02_whole / C02_no_raw_quote / C02_single_line are proved in Lean for every string, "
+LEVEL_TEXT = ("Theorems C02_inverse / C02_whole / C02_sequence (any number of padded quoted strings on a line) / C02_no_raw_quote / C02_single_line are proved in Lean for every string, "
               "both modes, any surrounding text and any tokenizer state, for every escape table satisfying a decidable "
               "predicate; C02_gen_ok re-checks that predicate on the tables regenerated from tokenizer.py on every run. "
               "The control flow of _handle_string/escape_text is tied by an exhaustive (length<=4/5 over 17 symbols) and "
